@@ -127,19 +127,13 @@ def mode_of(encoding: str) -> str:
 
 
 def use_encoding(encoding: str):
-    """Set urwid's global encoding and drop every cache that depends on it."""
+    """Set urwid's global encoding and drop the canvas cache (canvases hold encoded text).
+
+    urwid's own memoised helpers are deliberately NOT cleared: set_encoding() is public API, so anything the
+    library remembers across an encoding switch has to be keyed by the encoding itself (a cache that is not
+    would be hidden by clearing it here - seeded changes C02-7 and C03-7 are of that kind)."""
     import urwid
-    from urwid import text_layout
 
     urwid.util.set_encoding(encoding)
     urwid.CanvasCache.clear()
-    for name in dir(text_layout):
-        obj = getattr(text_layout, name)
-        if hasattr(obj, "cache_clear"):
-            obj.cache_clear()
-    for cls in (text_layout.StandardTextLayout,):
-        for name in dir(cls):
-            obj = getattr(cls, name, None)
-            if hasattr(obj, "cache_clear"):
-                obj.cache_clear()
     return mode_of(encoding)
